@@ -154,6 +154,12 @@ func Run(c *core.Ctx) int {
 		}
 	}
 	errorBound(c, docs, res)
+	// every other public operation that hands back a calculated document (see internal/calcproto/ops.go)
+	var replayDoc *calcproto.Doc
+	if len(docs) == 1 && rc.Doc != nil {
+		replayDoc = rc.Doc
+	}
+	OpsFamily(c, true, c.Pick(1500, 30000), calcproto.GenOpts{}, nil, replayDoc)
 	return c.Finish("random billing documents (lines 0-8, thorough up to 40; breakdowns, line and document discounts/charges by percentage with and without base, fixed, rate x quantity; foreign-currency items with exchange rates or alternative prices; advances and due dates; tax-included prices; both rounding rules; currencies with 0/2/3 decimals; regimes ES, EL, PT, IT, FR from the hand table and, read from the registry at run time, every other registered regime, suppliers under a regime's alternative code, and documents without a regime; rows sharing a rate key whose percentage the issuer supplies under different percentages; a combo repeated with a country override by an alternative code of the document's own regime, by another regime, by a country without one); non-trivial = at least one line; distinct by encoded document", nil)
 }
 
